@@ -28,18 +28,18 @@ func (epochState) CurrentEpoch() uint64 { return 1 }
 
 type payments struct{}
 
-func (payments) PaymentsDisabled() bool              { return true }
-func (payments) UnpaidSince(cid.ID) (int64, error)   { return -1, nil }
+func (payments) PaymentsDisabled() bool            { return true }
+func (payments) UnpaidSince(cid.ID) (int64, error) { return -1, nil }
 
 // failStorage never accepts flushed objects, so write-cache contents stay where they are.
 type failStorage struct{ common.Storage }
 
 var errNoFlush = errors.New("verif: flushing disabled")
 
-func (failStorage) Put(oid.Address, []byte) error          { return errNoFlush }
-func (failStorage) PutBatch(map[oid.Address][]byte) error  { return errNoFlush }
-func (failStorage) Type() string                           { return "fail" }
-func (failStorage) Path() string                           { return "" }
+func (failStorage) Put(oid.Address, []byte) error         { return errNoFlush }
+func (failStorage) PutBatch(map[oid.Address][]byte) error { return errNoFlush }
+func (failStorage) Type() string                          { return "fail" }
+func (failStorage) Path() string                          { return "" }
 
 // ---- shard layer ----
 
